@@ -11,6 +11,11 @@ Code modelled (src/lib_priv.rs, src/{server,client}/{track,receiver}.rs):
 * `flush`   — one deferred closure: `apply_component_change_from_network` (+ the host's
               relay-if-changed through `repeat_except_for_client`).
 
+`relayAlways = true` is the variant used for parent links (`EntityParented`): the same debounce
+token mechanism, but the host relays a received link to the other clients whether or not it changed
+anything on the host (src/server/receiver.rs); `entity_parented_on_*` is `detect` immediately followed
+by `react`.
+
 `legacy = true` is the behaviour before the `fix:` commit for D1 (an apply is skipped when a
 debounce token is present); `patch` is bevy_reflect's `apply` (a patch, D13) — `fun _ v => v` for
 types without list/map positions.  Ghost fields (`written`, `shown`, `sent`) are never read by a
@@ -84,7 +89,7 @@ def onClient (i : Nat) (f : Client V → Client V) (cs : List (Client V)) : List
 
 def findClient (i : Nat) (cs : List (Client V)) : Option (Client V) := cs.find? (fun c => c.id = i)
 
-def step (legacy : Bool) (patch : V → V → V) (s : State V) : Act V → State V
+def step (relayAlways : Bool) (legacy : Bool) (patch : V → V → V) (s : State V) : Act V → State V
   | .writeH v => { s with host := write s.host v, written := s.written ++ [v] }
   | .detectH => { s with host := detect s.host }
   | .reactH =>
@@ -102,7 +107,7 @@ def step (legacy : Bool) (patch : V → V → V) (s : State V) : Act V → State
     | [] => s
     | (i, v) :: rest =>
       let (h', changed) := apply legacy patch s.host v
-      if changed then
+      if changed || relayAlways then
         { s with host := h', hdefer := rest,
                  clients := s.clients.map (fun c => if c.id = i then c else { c with down := c.down ++ [v] }),
                  sent := s.sent + (s.clients.filter (fun c => c.id ≠ i)).length }
@@ -122,8 +127,8 @@ def step (legacy : Bool) (patch : V → V → V) (s : State V) : Act V → State
         | [] => c
         | v :: rest => { c with p := (apply legacy patch c.p v).1, defer := rest }) s.clients }
 
-def run (legacy : Bool) (patch : V → V → V) (s : State V) (as : List (Act V)) : State V :=
-  as.foldl (step legacy patch) s
+def run (relayAlways : Bool) (legacy : Bool) (patch : V → V → V) (s : State V) (as : List (Act V)) : State V :=
+  as.foldl (step relayAlways legacy patch) s
 
 /-- nothing in flight, nothing queued, nothing left to detect -/
 def Quiescent (s : State V) : Prop :=
